@@ -944,6 +944,7 @@ type c05Judge struct {
 	ctx       *Ctx
 	allSteps  bool // judge every step (random cases) or only the last one (enumerated: prefixes are cases themselves)
 	wireLines int  // how many extra gamma/den/includes correspondence lines per case
+	nTF       int  // slice d05b: counter for sampling the rfn.textfree correspondence
 }
 
 func (j *c05Judge) fail(site, sig, what string, recv c05Recv, cs []c05Call, outcome string) {
@@ -976,6 +977,11 @@ func (j *c05Judge) run(recv c05Recv, calls []c05Call) {
 		// the same case under the exact-where-it-answers equality oracle (the instance the theorems
 		// are tied through); the driver answers "unmodelled" where the decimal text could matter
 		ctx.Add("rfn.runx", impl, rw, c05Wires(calls))
+		// slice d05b: the side condition of the bridge theorems, evaluated on the real code, against the model's
+		// (every third numeric case: the model evaluates the shortest decimal text of every pair)
+		if j.nTF++; j.nTF%3 == 0 {
+			ctx.Add("rfn.textfree", encBool(c05TextAgrees(recv, calls)), rw, c05Wires(calls))
+		}
 		if c05TextFree(recv, calls) {
 			// all numbers are integers or infinities: the code's text-based equality provably coincides with exact
 			// comparison (C05.run_code_eq_exact), so the model under the total exact oracle must give this very outcome
